@@ -179,6 +179,19 @@ pub fn enumerate_single_faults(base: &[u8], lay: &Layout, f: &mut dyn FnMut(&'st
             }
         }
     }
+    // a run of zero octets from each record boundary (zero padding)
+    for &(s, _) in lay.records.iter().take(max_recs) {
+        for k in [6usize, 12] {
+            let mut o = base.to_vec();
+            let e = (s + k).min(n);
+            for x in &mut o[s..e] {
+                *x = 0;
+            }
+            if o != base {
+                f("zero-range", o);
+            }
+        }
+    }
     // AVP length / vendor / attribute fields
     let end = lay
         .records
@@ -235,7 +248,24 @@ pub fn enumerate_single_faults(base: &[u8], lay: &Layout, f: &mut dyn FnMut(&'st
 pub fn random_fault(rng: &mut Rng, b: &mut Vec<u8>) -> Option<&'static str> {
     let lay = layout_of(b);
     let before = b.clone();
-    let kind: &'static str = match rng.below(12) {
+    let kind: &'static str = match rng.below(13) {
+        12 => {
+            // a run of zero octets (padding written over part of the message)
+            if b.len() < 2 {
+                return None;
+            }
+            let start = if !lay.records.is_empty() && rng.bool() {
+                rng.pick(&lay.records).0
+            } else {
+                rng.usize_below(b.len())
+            };
+            let k = *rng.pick(&[2usize, 4, 6, 8, 12, 20]);
+            let end = (start + k).min(b.len());
+            for x in &mut b[start..end] {
+                *x = 0;
+            }
+            "zero-range"
+        }
         0 => {
             if b.is_empty() {
                 return None;
